@@ -222,6 +222,10 @@ func init() {
 		e.yield("verifrt.Yield")
 		return nil
 	}
+	intrinsics[vrt+"Rendezvous"] = func(e *Engine, fr *frame, fn *ssa.Function, args []Value) Value {
+		e.yield("verifrt.Rendezvous")
+		return nil
+	}
 	intrinsics[vrt+"WaitAll"] = func(e *Engine, fr *frame, fn *ssa.Function, args []Value) Value {
 		e.waitAll()
 		return nil
